@@ -137,6 +137,8 @@ type Run struct {
 	start     time.Time
 	Knobs     map[string]any
 	Inconclusive string
+	Post         []func() // run after the bubble has ended (real clock, no simulated goroutines)
+	endSim       string
 }
 
 func (r *Run) Count(name string, n int64) {
@@ -168,6 +170,9 @@ func (r *Run) Logf(f string, a ...any) {
 }
 
 func (r *Run) simNow() string {
+	if r.endSim != "" {
+		return r.endSim
+	}
 	return time.Since(r.start).String()
 }
 func (r *Run) Now() time.Duration { return time.Since(r.start) }
@@ -267,8 +272,26 @@ func ExecBubble(t *testing.T, prop string, seed uint64, tier string, keep map[in
 				body(r)
 			}()
 			res.SimNanos = int64(time.Since(r.start))
+			r.endSim = time.Since(r.start).String()
 		})
 	}()
+	if res.Panic == "" {
+		if r.endSim == "" {
+			r.endSim = "end"
+		}
+		func() {
+			defer func() {
+				if p := recover(); p != nil {
+					buf := make([]byte, 16384)
+					n := runtime.Stack(buf, false)
+					res.Panic = "post-run check: " + fmt.Sprint(p) + "\n" + string(buf[:n])
+				}
+			}()
+			for _, f := range r.Post {
+				f()
+			}
+		}()
+	}
 	runtime.SetSimSeed(0)
 	res.WallMs = float64(time.Since(wall).Microseconds()) / 1000
 	res.Stats = r.stats
